@@ -43,17 +43,108 @@ def _init_worker():
         return
     orig = cs.pairing
     log = []
+    steps = []
+    ids = {}
+    P = ob.field_modulus
 
-    def rec_pairing(Q, P, final_exponentiate=True):
-        ev = {"qonc": 1 if ob.is_on_curve(Q, ob.b2) else 0, "qsub": 0, "ponc": 1 if ob.is_on_curve(P, ob.b) else 0,
-              "psub": 0, "pinf": 1 if ob.is_inf(P) else 0}
+    def aff(pt):
+        """Canonical affine coordinates by own arithmetic (None for infinity)."""
+        cs_ = [tuple(int(t) for t in (c.coeffs if hasattr(c, "coeffs") else (c.n,))) for c in pt]
+        if not any(cs_[2]):
+            return "INF"
+        if len(cs_[2]) == 1:
+            zi = pow(cs_[2][0], P - 2, P)
+            return ((cs_[0][0] * zi % P,), (cs_[1][0] * zi % P,))
+        from .grouptrace import f2_inv, f2_mul
+        zi = f2_inv(P, cs_[2])
+        return (f2_mul(P, cs_[0], zi), f2_mul(P, cs_[1], zi))
+
+    def pid(key):
+        if key not in ids:
+            ids[key] = len(ids) + 1
+        return ids[key]
+
+    def negaff(a):
+        return a if a == "INF" else (a[0], tuple((-v) % P for v in a[1]))
+
+    def st(**kw):
+        e = {"k": "", "pk": 0, "pt": 0, "q": 0, "res": 0, "ok": 0, "qsrc": "", "psrc": ""}
+        e.update(kw)
+        steps.append(e)
+    state = {"sig": None, "keys": {}, "hashes": set(), "wrapped": True}
+    g1a = aff(ob.G1)
+
+    def rec_pairing(Q, Pp, final_exponentiate=True):
+        ev = {"qonc": 1 if ob.is_on_curve(Q, ob.b2) else 0, "qsub": 0, "ponc": 1 if ob.is_on_curve(Pp, ob.b) else 0,
+              "psub": 0, "pinf": 1 if ob.is_inf(Pp) else 0}
         if ev["qonc"]:
             ev["qsub"] = 1 if g2p.subgroup_check(Q) else 0
         if ev["ponc"]:
-            ev["psub"] = 1 if g2p.subgroup_check(P) else 0
+            ev["psub"] = 1 if g2p.subgroup_check(Pp) else 0
         log.append(ev)
-        return orig(Q, P, final_exponentiate=final_exponentiate)
+        try:
+            qa, pa = aff(Q), aff(Pp)
+            qsrc = "sig" if qa == state["sig"] else ("hash" if qa in state["hashes"] else "other")
+            psrc, pkid = "other", 0
+            if pa in (g1a, negaff(g1a)):
+                psrc = "g1"
+            else:
+                for kb, ka in state["keys"].items():
+                    if pa in (ka, negaff(ka)):
+                        psrc, pkid = "pk", pid(("pk", kb))
+            st(k="pair", q=pid(("pt", qa)), qsrc=qsrc, psrc=psrc, pk=pkid)
+        except Exception:  # noqa: BLE001 -- classification must never disturb the run
+            state["wrapped"] = False
+        return orig(Q, Pp, final_exponentiate=final_exponentiate)
     cs.pairing = rec_pairing          # run-time wrapper on the module global the verifiers look up
+    try:
+        o_sub, o_s2g, o_p2g, o_fe, o_h2g = cs.subgroup_check, cs.signature_to_G2, cs.pubkey_to_G1, cs.final_exponentiate, cs.hash_to_G2
+        o_kv = cs.BaseG2Ciphersuite.__dict__["KeyValidate"].__func__
+
+        def subgroup_check(pt):
+            res = o_sub(pt)
+            st(k="ssub", pt=pid(("pt", aff(pt))), res=1 if res is True else 0)
+            return res
+
+        def signature_to_G2(sg):
+            try:
+                pt = o_s2g(sg)
+            except Exception:
+                st(k="dsig", ok=0)
+                raise
+            state["sig"] = aff(pt)
+            st(k="dsig", ok=1, pt=pid(("pt", state["sig"])))
+            return pt
+
+        def pubkey_to_G1(pk):
+            try:
+                pt = o_p2g(pk)
+            except Exception:
+                st(k="dpk", pk=pid(("pk", bytes(pk))), ok=0)
+                raise
+            state["keys"][bytes(pk)] = aff(pt)
+            st(k="dpk", pk=pid(("pk", bytes(pk))), ok=1, pt=pid(("pt", aff(pt))))
+            return pt
+
+        def final_exponentiate(x):
+            st(k="fe")
+            return o_fe(x)
+
+        def hash_to_G2(m_, d_, h_):
+            pt = o_h2g(m_, d_, h_)
+            state["hashes"].add(aff(pt))
+            return pt
+
+        def KeyValidate(PK):
+            res = o_kv(PK)
+            st(k="kv", pk=pid(("pk", bytes(PK) if isinstance(PK, (bytes, bytearray)) else repr(PK))), res=1 if res is True else 0)
+            return res
+        cs.subgroup_check, cs.signature_to_G2, cs.pubkey_to_G1, cs.final_exponentiate, cs.hash_to_G2 = \
+            subgroup_check, signature_to_G2, pubkey_to_G1, final_exponentiate, hash_to_G2
+        cs.BaseG2Ciphersuite.KeyValidate = staticmethod(KeyValidate)
+    except Exception:  # noqa: BLE001 -- the module no longer has this shape: the step-level check is skipped
+        state["wrapped"] = False
+    _W.update(steps=steps, pstate=state)
     _W.update(ready=True, log=log, cs=cs, g2p=g2p, ob=ob,
               suites={"basic": cs.G2Basic, "aug": cs.G2MessageAugmentation, "pop": cs.G2ProofOfPossession})
 
@@ -257,7 +348,7 @@ def _run_scenario(job):
     idx, seed, sc = job
     _init_worker()
     log = _W["log"]
-    row = {"op": "run", "sc": sc, "got": 0, "raised": 0, "pair": [], "idx": idx}
+    row = {"op": "run", "sc": sc, "got": 0, "raised": 0, "pair": [], "idx": idx, "steps": [], "stepsok": 0}
     try:
         w = World(seed, nonempty_m1="K1m1" in json.dumps(sc))
         w.flipbit = sc["sig"].get("bit")
@@ -269,6 +360,10 @@ def _run_scenario(job):
         row["build_error"] = f"{type(e).__name__}:{e}"[:200]
         return row
     del log[:]
+    del _W["steps"][:]
+    _W["pstate"]["sig"] = None
+    _W["pstate"]["keys"].clear()
+    _W["pstate"]["hashes"].clear()
     try:
         e = sc["entry"]
         if e == "Verify":
@@ -290,6 +385,8 @@ def _run_scenario(job):
         row["raised"] = 1
         row["raise_info"] = f"{type(ex).__name__}:{ex}"[:160]
     row["pair"] = list(log)
+    row["steps"] = list(_W["steps"])
+    row["stepsok"] = 1 if _W["pstate"]["wrapped"] else 0
     row["inputs"] = {"pks": [b.hex() for b in pks], "msgs": [m.hex()[:64] for m in ms], "sig": sig.hex()}
     return row
 
